@@ -342,7 +342,8 @@ pub fn gen_sid(r: &mut Rng, allow_dup_variants: bool) -> SId {
         id.region = Some(gen_region(r));
     }
     // long tail (1/16): lists well beyond any small-buffer / small-list threshold
-    let nv = if r.chance(1, 16) { 5 + r.below(8) } else { *r.pick(&[0usize, 0, 0, 1, 1, 2, 3, 4]) };
+    // ... and very long ones (1/128): identifiers of several hundred bytes
+    let nv = if r.chance(1, 128) { 20 + r.below(45) } else if r.chance(1, 16) { 5 + r.below(8) } else { *r.pick(&[0usize, 0, 0, 1, 1, 2, 3, 4]) };
     for _ in 0..nv {
         let v = gen_variant(r);
         if !allow_dup_variants && id.variants.iter().any(|x| x.eq_ignore_ascii_case(&v)) {
